@@ -150,7 +150,10 @@ pub fn record_c11(out: &str, seed: u64, n: usize) {
     let mut queue: Vec<String> = vec![];
     for b in base.iter().take(37) {
         let chars: Vec<char> = b.chars().collect();
-        for ins in ["é", "日", "\u{a0}", "\u{2003}", "\u{3000}", "\u{1f600}", "\u{85}", "\u{200b}"] {
+        // single characters, and short runs of blanks of mixed width (a parser that trims one view of the line
+        // and slices another by byte offsets only goes wrong when the widths differ)
+        for ins in ["é", "日", "\u{a0}", "\u{2003}", "\u{3000}", "\u{1f600}", "\u{85}", "\u{200b}",
+                    "\u{a0} \u{a0}", "  \u{3000}", "\u{a0}\u{a0}", " \u{2003} "] {
             for at in 0..=chars.len() {
                 let mut line: String = chars[..at].iter().collect();
                 line.push_str(ins);
